@@ -133,6 +133,7 @@ class Ctx:
         self.nq = 0
         self.scn = None
         self.scn_exprs = {}
+        self.scn_dyn = None
 
     def interp(self, feas_timeout_ms=1500):
         I = engine.interp_from_parsed(self.parsed, feas_timeout_ms)
@@ -170,13 +171,17 @@ class Ctx:
         return out
 
     # ------------------------------------------------------------------ deferred queries
-    def _emit(self, st, kind, claims, assume, model_vars, lemmas=True):
+    def _emit(self, st, kind, claims, assume, model_vars, lemmas=True, expect=None):
         """claims: list of (formula-to-refute-negation-of | None, claim text, key).  kind: require|infeasible|witness"""
         pf = self.path_feasible(st)
         if pf == 'unsat':
             return
-        if self.scn is not None and kind != 'witness':
+        scn_extra = None
+        if self.scn is not None and (kind != 'witness' or expect is not None):
             mvx = dict(self.scn_exprs)
+            if self.scn_dyn is not None:
+                scn_extra, ex2 = self.scn_dyn(st)
+                mvx.update(ex2)
             mvx.update(model_vars or {})
             model_vars = mvx
         assume = [a for a in assume if a is not True]
@@ -244,11 +249,14 @@ class Ctx:
                     except Exception:   # noqa
                         pass
         self.nq += 1
-        self.ob.queries.append({'kind': kind, 'text': s.to_smt2(), 'sels': sels, 'mv': mvnames, 'base': base, 'scn': self.scn,
+        self.ob.queries.append({'kind': kind, 'text': s.to_smt2(), 'sels': sels, 'mv': mvnames, 'base': base, 'scn': self.scn, 'expect': expect, 'scn_extra': scn_extra,
                                 'sliced': pf == 'sat', 'size': len(kept), 'full': len(pc)})
 
-    def set_scenario(self, templ, scenario):
-        """register the replay scenario template of the current world (templ: tojson.Templ that built it)."""
+    def set_scenario(self, templ, scenario, dynamic=None):
+        """register the replay scenario template of the current world (templ: tojson.Templ that built it).
+        dynamic(st) -> (extra raw-storage items, exprs): storage entries that only exist on a given path
+        (lazily initialised accounts / allowances)."""
+        self.scn_dyn = dynamic
         self.ob.scenarios.append(scenario)
         self.scn = len(self.ob.scenarios) - 1
         self.scn_exprs = dict(templ.exprs)
@@ -264,12 +272,13 @@ class Ctx:
     def infeasible(self, st, claim, key='', model_vars=None, assume=()):
         self._emit(st, 'infeasible', [(None, claim, key)], list(assume), model_vars)
 
-    def witness(self, label, st, cond=True, model_vars=None):
+    def witness(self, label, st, cond=True, model_vars=None, expect=None):
+        """expect='ok'|'err': the witness model is also replayed on the real code, which must agree (encoder validation)"""
         conds = cond if isinstance(cond, (list, tuple)) else [cond]
         f = z3.And(*[c for c in conds if c is not True]) if any(c is not True for c in conds) else True
         if any(c is False for c in conds):
             return
-        self._emit(st, 'witness', [(f, label, label)], [], model_vars, lemmas=False)
+        self._emit(st, 'witness', [(f, label, label)], [], model_vars, lemmas=False, expect=expect)
 
     def witness_found(self, label):
         self.ob.witnesses.append({'label': label})
@@ -288,6 +297,15 @@ class Ctx:
     def sample(self, s):
         if len(self.ob.samples) < 6:
             self.ob.samples.append(s)
+
+
+def with_extra(scn, extra):
+    if not extra:
+        return scn
+    import copy
+    s2 = copy.deepcopy(scn)
+    s2['storage']['$raw_storage']['items'] = s2['storage']['$raw_storage']['items'] + list(extra)
+    return s2
 
 
 def div_lemmas(st, relevant_vars):
@@ -573,13 +591,16 @@ def run_check(prop_id, modname, tier, seed, jobs=None, only=None):
                 if q['kind'] == 'witness':
                     if c['status'] == 'sat':
                         wit_sat.append(c['claim'])
+                        if q.get('expect') and q.get('scn') is not None and len(r.setdefault('witness_replays', [])) < 3:
+                            r['witness_replays'].append({'label': c['claim'], 'expect': q['expect'], 'model': c['model'],
+                                                         'scenario_t': with_extra(r['scenarios'][q['scn']], q.get('scn_extra')), 'strings': r['strings']})
                         if len(r['witnesses']) < 12:
                             r['witnesses'].append({'label': c['claim'], 'model': c['model']})
                     continue
                 if c['status'] == 'sat':
                     viol = {'claim': c['claim'], 'site': c['key'], 'key': c['key'], 'model': c['model']}
                     if q.get('scn') is not None:
-                        viol['scenario_t'] = r['scenarios'][q['scn']]
+                        viol['scenario_t'] = with_extra(r['scenarios'][q['scn']], q.get('scn_extra'))
                         viol['strings'] = r['strings']
                     r['violations'].append(viol)
                 elif c['status'] == 'unknown':
